@@ -3,6 +3,15 @@
 // C35 correspondence harness: `p <hex query>` per line; prints the canonical form of
 // sql.Parse's result (the fields the Lean model computes, same format as lean/Driver/C35.lean),
 // then " ## " and a JSON dump of the whole Query (for the case-variant monitor).
+// `l <hex>` prints `lower <hex of lowerASCII(s)>` (Lean: asciiLower).
+//
+// `verif_c35 conc <goroutines> [<statements per goroutine>]`: the `p` lines of stdin are parsed by
+// <goroutines> goroutines that all start at the same moment in this (fresh) process - the SQL
+// server runs one goroutine per client connection - each with a different first statement;
+// afterwards the same statements are parsed sequentially and every concurrent answer must equal
+// the sequential one.  A Go fatal
+// error (concurrent map writes) or a race report (-race build) kills the process: the check reads
+// the exit status and stderr.
 package main
 
 import (
@@ -13,6 +22,7 @@ import (
 	"os"
 	"strconv"
 	"strings"
+	"sync"
 
 	kafsql "github.com/kafscale/platform/addons/processors/sql-processor/internal/sql"
 )
@@ -126,7 +136,83 @@ func run(q string) (line string) {
 	return canon(parsed) + " ## " + string(full)
 }
 
+func runLower(s string) (line string) {
+	defer func() {
+		if r := recover(); r != nil {
+			line = "panic"
+		}
+	}()
+	return "lower " + hx(kafsql.VerifLowerASCII(s))
+}
+
+// concurrent cold start: see the package comment.
+func conc(n, per int) {
+	var qs []string
+	sc := bufio.NewScanner(os.Stdin)
+	sc.Buffer(make([]byte, 1<<20), 1<<26)
+	for sc.Scan() {
+		f := strings.Fields(sc.Text())
+		if len(f) != 2 || f[0] != "p" {
+			continue
+		}
+		var q []byte
+		if f[1] != "-" {
+			q, _ = hex.DecodeString(f[1])
+		}
+		qs = append(qs, string(q))
+	}
+	if len(qs) == 0 || n <= 0 {
+		fmt.Println("conc-bad-input")
+		os.Exit(3)
+	}
+	res := make([][]string, n)
+	start := make(chan struct{})
+	var wg sync.WaitGroup
+	for g := 0; g < n; g++ {
+		res[g] = make([]string, len(qs))
+		wg.Add(1)
+		go func(g int) {
+			defer wg.Done()
+			mine := res[g]
+			<-start
+			for k := 0; k < per && k < len(qs); k++ {
+				i := (g*7 + k) % len(qs) // a different first statement per connection
+				mine[i] = run(qs[i])
+			}
+		}(g)
+	}
+	close(start)
+	wg.Wait()
+	mism, panics := 0, 0
+	w := bufio.NewWriter(os.Stdout)
+	for i, q := range qs {
+		want := run(q)
+		for g := 0; g < n; g++ {
+			if res[g][i] == "panic" {
+				panics++
+			}
+			if res[g][i] != "" && res[g][i] != want {
+				mism++
+				if mism <= 3 {
+					fmt.Fprintf(w, "conc-mismatch %s goroutine=%d concurrent=%q sequential=%q\n", hx(q), g, res[g][i], want)
+				}
+			}
+		}
+	}
+	fmt.Fprintf(w, "conc-done goroutines=%d statements=%d mismatches=%d panics=%d\n", n, len(qs), mism, panics)
+	w.Flush()
+}
+
 func main() {
+	if len(os.Args) >= 3 && os.Args[1] == "conc" {
+		n, _ := strconv.Atoi(os.Args[2])
+		per := 1 << 30
+		if len(os.Args) >= 4 {
+			per, _ = strconv.Atoi(os.Args[3])
+		}
+		conc(n, per)
+		return
+	}
 	w := bufio.NewWriter(os.Stdout)
 	defer w.Flush()
 	sc := bufio.NewScanner(os.Stdin)
@@ -136,7 +222,7 @@ func main() {
 		if len(f) == 0 || strings.HasPrefix(f[0], "#") {
 			continue
 		}
-		if f[0] != "p" || len(f) != 2 {
+		if (f[0] != "p" && f[0] != "l") || len(f) != 2 {
 			fmt.Fprintln(w, "bad-op")
 			continue
 		}
@@ -148,6 +234,10 @@ func main() {
 				fmt.Fprintln(w, "bad-op")
 				continue
 			}
+		}
+		if f[0] == "l" {
+			fmt.Fprintln(w, runLower(string(q)))
+			continue
 		}
 		fmt.Fprintln(w, run(string(q)))
 	}
